@@ -7,7 +7,9 @@ mod gen_stream;
 mod negot;
 mod stream_engine;
 mod rng;
+#[cfg(feature = "hooks")]
 mod sched_engine;
+#[cfg(feature = "hooks")]
 mod sched_gen;
 mod serve_engine;
 mod val;
@@ -86,6 +88,11 @@ fn main() {
                     "C11" => gen_stream::gen_c11(&mut rng, thorough, &mut emit_stream),
                     _ => gen_stream::gen_c17(&mut rng, thorough, &mut emit_stream),
                 }
+                #[cfg(not(feature = "hooks"))]
+                if prop == "C11" {
+                    eprintln!("built without the schedule engine: the concurrent part of C11 is not explored");
+                }
+                #[cfg(feature = "hooks")]
                 if prop == "C11" {
                     // all interleavings with a concurrently polling consumer
                     drop(emit_stream);
@@ -174,6 +181,12 @@ fn main() {
                     drop(emit_serve);
                     histories::gen_c15(&mut rng, thorough, &mut cases, &mut meta, &prop);
                 }
+                #[cfg(not(feature = "hooks"))]
+                "C10" => {
+                    eprintln!("built without the schedule engine");
+                    std::process::exit(3);
+                }
+                #[cfg(feature = "hooks")]
                 "C10" => {
                     drop(emit_serve);
                     let mut k = 0u64;
@@ -279,6 +292,7 @@ fn main() {
                 let line = line.unwrap();
                 let mut it = line.splitn(3, ' ');
                 let (engine, id, rest) = (it.next().unwrap_or(""), it.next().unwrap_or(""), it.next().unwrap_or(""));
+                #[cfg(feature = "hooks")]
                 if engine == "sched" {
                     let v = val::Val::parse(rest).expect("case value");
                     let input = match &v {
